@@ -50,9 +50,9 @@ type World struct {
 	scratch string
 	curStep int
 
-	// NoModelReads suppresses oracle-side read-only calls that are not part of
-	// the plan (read-free twin of C02).
-	Quiet bool
+	// Imported is set once the run continued on an imported database (node
+	// keys were re-assigned, so nonces are no longer R2's pre-order numbers).
+	Imported bool
 }
 
 // CommitRec is one commit's observable result.
@@ -416,7 +416,16 @@ func (w *World) applyReopen(s Step) *Violation {
 		w.Cache = *s.Cache
 	}
 	w.Tree = w.NewHandle(w.Fast, w.Cache)
-	return w.loadInto(s, s.N)
+	target := s.N
+	if target > 0 && !w.M.Has(target) {
+		// loading a version outside the range must fail ...
+		if _, err := w.Tree.LoadVersion(target); err == nil {
+			return w.viol("C14", "C14.load", "accepted", "load-missing", fmt.Sprintf("LoadVersion(%d) succeeded but retained versions are %v", target, w.M.Versions()))
+		}
+		// ... and leave the tree usable: the fresh handle then loads the latest version
+		target = 0
+	}
+	return w.loadInto(s, target)
 }
 
 func (w *World) applyLoad(s Step) *Violation {
@@ -565,6 +574,42 @@ func (w *World) applyDVF(s Step) *Violation {
 		return w.viol("C09", "C09.step", "load-fails", "dvf", fmt.Sprintf("LoadVersion(%d) after DeleteVersionsFrom = (%d,%v)", s.N, lv, err))
 	}
 	return nil
+}
+
+// Clean reports whether the handle is at the latest version without
+// uncommitted changes and without open exporters (a restart loses nothing).
+func (w *World) Clean() bool {
+	if w.M.Cur != w.M.Latest || len(w.Pins) > 0 {
+		return false
+	}
+	if w.M.Latest == 0 {
+		return w.M.Working.Len() == 0
+	}
+	return w.T.Work == w.T.Roots[w.M.Latest]
+}
+
+// Restart performs a clean restart: the handle is dropped and a fresh one is
+// opened on the same disk at the latest version. Only legal when Clean().
+func (w *World) Restart(fast bool, cache int) *Violation {
+	w.closeHandle()
+	w.Fast, w.Cache = fast, cache
+	w.Tree = w.NewHandle(fast, cache)
+	lv, err := w.Tree.Load()
+	if err != nil || lv != w.M.Latest {
+		return w.viol("C14", "C14.load", "load-fails", "restart", fmt.Sprintf("Load() after clean restart = (%d,%v) want %d", lv, err, w.M.Latest))
+	}
+	w.M.Load(w.M.Latest)
+	w.T.Load(w.M.Latest)
+	return nil
+}
+
+// WithHandle runs f with h installed as the world's tree (read-only audits on
+// a second handle), then restores the main handle.
+func (w *World) WithHandle(h *iavl.MutableTree, f func() *Violation) *Violation {
+	old := w.Tree
+	w.Tree = h
+	defer func() { w.Tree = old }()
+	return f()
 }
 
 // ProbeKeys returns the key universe plus absent neighbours, sorted.
